@@ -294,7 +294,7 @@ def run_case(case, acc=None, want=("C01", "C02")):
         allv, sols = S[key]
         stmts = class_stmts + inline
         solset = set(sols)
-        sel = [x for x in case["sel"] if isinstance(x, int)]
+        sel = [x for x in (case.get("sel") or []) if isinstance(x, int)]
         sel = (sel + [0] * 8)[:8]       # (the structural reducer may have shortened the selector list)
         probes = []
         if sols:
